@@ -22,6 +22,13 @@ def main():
             except BaseException as ex:  # noqa
                 rec = dict(p=p, w=w, exc=repr(ex)[:160])
             out.write(json.dumps(rec) + "\n")
+            if len(set(w)) == 1:
+                # even weights: the other entry point of the helper is asked the same question
+                try:
+                    rec2 = dict(p=p, w=w, result=float(ImportUtilities.average_percentages(p)), fn="average_percentages")
+                except BaseException as ex:  # noqa
+                    rec2 = dict(p=p, w=w, exc=repr(ex)[:160], fn="average_percentages")
+                out.write(json.dumps(rec2) + "\n")
 
 
 if __name__ == "__main__":
